@@ -12,7 +12,7 @@ from .values import Elem, Sym
 INT_WIDTH = {"byte": 1, "char": 1, "short": 2, "three": 3, "int": 4}
 INTS = list(INT_WIDTH)
 VALID_TYPES = ["byte", "char", "short", "three", "int", "bool", "bool:short", "string", "encoded_string", "blob",
-               "E", "E:short", "SF", "SB", "SU", "SC", "SP", "SX"]
+               "E", "E:short", "SF", "SB", "SU", "SC", "SP", "SX", "SW", "SK"]
 BAD_TYPES = ["Nope", "a:b:c", "char:char", "char:short", "bool:string", "E:string", "SF:char", "bool:bool", "E:E"]
 
 NOT_A_LITERAL = {"isdigit": False, "isint": False, "== 'true'": False, "== 'false'": False, "== 'None'": False,
@@ -58,7 +58,10 @@ def declarations():
         Elem("array", {"name": "a", "type": "short", "length": "2", "delimited": "false", "optional": "false"}),
         f("e", "encoded_string", length="3"), f("b", "bool:short", optional="false"), f("k", "E:three"),
         Elem("dummy", {"type": "char"}, text="0")])  # fixed size 4 + 3 + 2 + 3 + 1 = 13
-    return [enum, sf, sb, su, sc, sp, sx]
+    # containers whose leaves are all of fixed size: a struct with a switch or a chunked section never has a fixed size
+    sw = Elem("struct", {"name": "SW"}, [f("k", "char"), Elem("switch", {"field": "k"}, [Elem("case", {"value": "1"}, [f("a", "short")])])])
+    sk = Elem("struct", {"name": "SK"}, [Elem("chunked", {}, [f("x", "char"), f("y", "short")])])
+    return [enum, sf, sb, su, sc, sp, sx, sw, sk]
 
 
 TYPE_INFO = {  # kind, underlying width (ints/bool/enum), fixed size, bounded
@@ -69,6 +72,7 @@ TYPE_INFO = {  # kind, underlying width (ints/bool/enum), fixed size, bounded
     "SF": ("struct", None, 3, True), "SB": ("struct", None, None, True), "SU": ("struct", None, None, False),
     "SC": ("struct", None, None, True),
     "SP": ("struct", None, 5, True), "SX": ("struct", None, 13, True),
+    "SW": ("struct", None, None, True), "SK": ("struct", None, None, True),
 }
 UNDERLYING = {"bool": "char", "bool:short": "short", "E": "char", "E:short": "short"}
 
@@ -140,6 +144,9 @@ def field_shapes(types=None, tier="quick"):
             combos += [(t, True, "false", None, None, None), (t, True, None, "false", "digits", None), (t, True, "false", "false", "digits", None),
                        (t, True, None, None, None, wrong), (t, False, None, None, None, wrong), (t, True, None, None, "digits", lit),
                        (t, False, None, None, None, "false" if kind == "bool" else lit)]
+        # a length that is an integer but not a string of digits ("-1", "+4"), and one that names nothing
+        combos += [("string", True, None, None, "negint", None), ("encoded_string", True, None, "true", "negint", None),
+                   ("string", True, None, None, "noref", None), ("string", True, "true", None, "negint", None)]
         combos = list(dict.fromkeys(c for c in combos if c[5] is not None or True))
     for t, named, optional, padded, length, text in combos:
         desc = dict(tag="field", type=t, named=named, optional=optional, padded=padded, length=length, text=text)
@@ -156,6 +163,10 @@ def field_shapes(types=None, tier="quick"):
                 attrs["padded"] = d["padded"]
             if d["length"] == "digits":
                 attrs["length"] = nm.digits("L")
+            elif d["length"] == "negint":
+                attrs["length"] = nm.negint("L")
+            elif d["length"] == "noref":
+                attrs["length"] = nm.name("nowhere")
             elif d["length"] == "ref":
                 n = nm.name("n")
                 la = {"name": n, "type": "char"}
@@ -186,6 +197,8 @@ def array_shapes(types=None, tier="quick"):
                 combos.append((t, optional, delimited, trailing, length))
             combos += [(t, "false", None, None, None), (t, None, "false", None, None), (t, None, "true", "true", None),
                        (t, None, "false", None, "digits"), (t, "false", "false", "true", "ref")]
+        combos += [("char", None, None, None, "negint"), ("SF", None, None, None, "negint"), ("char", None, "true", None, "negint"),
+                   ("char", None, None, None, "noref"), ("short", "true", None, None, "negint")]
         combos = list(dict.fromkeys(combos))
     for t, optional, delimited, trailing, length in combos:
         desc = dict(tag="array", type=t, named=True, optional=optional, delimited=delimited, trailing=trailing, length=length,
@@ -202,6 +215,10 @@ def array_shapes(types=None, tier="quick"):
                 attrs["trailing-delimiter"] = d["trailing"]
             if d["length"] == "digits":
                 attrs["length"] = nm.digits("L")
+            elif d["length"] == "negint":
+                attrs["length"] = nm.negint("L")
+            elif d["length"] == "noref":
+                attrs["length"] = nm.name("nowhere")
             elif d["length"] == "ref":
                 n = nm.name("n")
                 la = {"name": n, "type": "char"}
@@ -398,6 +415,11 @@ def pair_shapes():
                 Elem("case", {"value": "B"}, [Elem("field", {"name": nm.name("z"), "type": "int"})])])])(nm.name("k")),
             "switchreq": lambda: (lambda kk: [Elem("field", {"name": kk, "type": "char"}), Elem("switch", {"field": kk}, [
                 Elem("case", {"value": nm.digits("cv")}, [Elem("field", {"name": nm.name("q"), "type": "char"})])])])(nm.name("k")),
+            # the switch field declared earlier, so that something can stand between it and the switch
+            "kfield": lambda: [Elem("field", {"name": k, "type": "char"})],
+            "switchk_req": lambda: [Elem("switch", {"field": k}, [Elem("case", {"value": nm.digits("cv")}, [Elem("field", {"name": nm.name("q"), "type": "char"})])])],
+            "switchk_opt": lambda: [Elem("switch", {"field": k}, [Elem("case", {"value": nm.digits("cv")}, [Elem("field", {"name": nm.name("q"), "type": "char", "optional": "true"})])])],
+            "switchk_dummy": lambda: [Elem("switch", {"field": k}, [Elem("case", {"value": nm.digits("cv")}, [Elem("dummy", {"type": "char"}, text=nm.digits("dv"))])])],
             "switchoptreq": lambda: (lambda kk: [Elem("field", {"name": kk, "type": "char", "optional": "true"}), Elem("switch", {"field": kk}, [
                 Elem("case", {"value": nm.digits("cv")}, [Elem("field", {"name": nm.name("q"), "type": "char", "optional": "true"})])])])(nm.name("k")),
         }
@@ -409,7 +431,11 @@ def pair_shapes():
             return at[a](), at[b](), []
         yield Shape(("pair", a, b), dict(tag="pair", first=a, second=b), build)
     for a, b, c in (("len", "useslen", "useslen"), ("opt", "break", "req"), ("opt", "break", "opt"), ("dummy", "break", "req"), ("opt", "switchopt", "opt"),
-                    ("switchopt", "opt", "opt"), ("chunkopt", "opt", "req"), ("switchoptfirst", "opt", "optstr")):
+                    ("switchopt", "opt", "opt"), ("chunkopt", "opt", "req"), ("switchoptfirst", "opt", "optstr"),
+                    # what stands between a switch field and its switch reaches into the cases (and back out)
+                    ("kfield", "opt", "switchk_req"), ("kfield", "opt", "switchk_opt"), ("kfield", "opt", "switchk_dummy"),
+                    ("kfield", "dummy", "switchk_req"), ("kfield", "switchk_opt", "req"), ("kfield", "switchk_dummy", "req"),
+                    ("kfield", "optstr", "switchk_opt")):
         def build3(nm, a=a, b=b, c=c):
             at = atoms(nm)
             return at[a](), at[b](), at[c]()
